@@ -38,7 +38,30 @@ fn build_base(seed: u64, n_target: usize, stranded: bool) -> BaseGraph<K, u16> {
     for (kmer, exts, _) in table.iter() {
         b.add(kmer.iter(), *exts, 1);
     }
+    // a minority of longer nodes (so that the mean node length is K and a bit): unitigs of some
+    // separate short random reads
+    let extra = (n_target / 60).max(1);
+    let longer: Vec<Vec<u8>> = (0..extra).map(|_| { let l = rng.range(17, 48); dna::random_seq(&mut rng, l, &[0, 1, 2, 3]) }).collect();
+    let lg = simcore::pipe::base_graph_counts::<K>(&longer, stranded, 1);
+    for i in 0..lg.len() {
+        let s = lg.sequences.get(i);
+        let bases: Vec<u8> = (0..s.len()).map(|j| s.get(j)).collect();
+        b.add(bases.iter(), lg.exts[i], lg.data[i]);
+    }
     b
+}
+
+fn terminal_kmers_distinct(b: &BaseGraph<K, u16>) -> bool {
+    let mut f = std::collections::HashSet::new();
+    let mut l = std::collections::HashSet::new();
+    for i in 0..b.len() {
+        let s = b.sequences.get(i);
+        let (a, z): (K, K) = (s.first_kmer(), s.last_kmer());
+        if !f.insert(a) || !l.insert(z) {
+            return false;
+        }
+    }
+    true
 }
 
 /// The same node set relocated so that the packed store straddles base offset 2^31 (32-bit
@@ -155,7 +178,15 @@ pub fn run(opts: &Opts) -> i32 {
         let mut rng = Rng::new(cs);
         let n_target = if opts.tier == Tier::Thorough && ci >= 4 { rng.range(400_000, 1_000_000) } else { rng.range(70_000, 140_000) };
         let stranded = rng.chance(1, 2);
-        let base = build_base(cs, n_target, stranded);
+        let mut base = build_base(cs, n_target, stranded);
+        {
+            // terminal k-mers must be distinct (precondition of the index); re-draw if the random extras collide
+            let mut tries = 0;
+            while tries < 5 && !terminal_kmers_distinct(&base) {
+                tries += 1;
+                base = build_base(cs.wrapping_add(tries), n_target, stranded);
+            }
+        }
         let serial = match guarded(|| base.clone().finish_serial()) {
             Ok(g) => g,
             Err((loc, msg)) => {
